@@ -36,3 +36,9 @@ Theorem normal_fast_path_panic_condition : forall e m, -342 <= e <= 308 -> 1 <= 
     ((s1 * s2) mod W64 + (s1 * s2x) / W64) mod W64 = W64 - 1 /\
     (Z.land ((s1 * s2) / W64) 511 = 0 \/ Z.land ((s1 * s2) / W64) 511 = 511).
 Proof. exact normal_fast_panics_only_on_all_ones. Qed.
+
+(* ... and it is the oracle of the correspondence run: on this path the code as written and Spec.Num.round_pos
+   (the exact-decimal specification every C07 case is compared with) agree on every input *)
+Theorem normal_fast_path_agrees_with_the_specification : forall e m raw, -307 < e < 288 -> 1 <= m < W64 ->
+  parse_floating_normal_fast e m = Some (Some raw) -> Spec.Num.round_pos m e = Spec.Num.Bits raw.
+Proof. exact normal_fast_agrees_with_oracle. Qed.
